@@ -65,6 +65,7 @@ package boltz
 //@ spec pathUnder(b Int, path (Array Int Str), n Int) Int
 // plainSame(): in every bucket the plain keys (entries that are not nested buckets) are the same as on entry
 //@ define plainSame() = forall(b, forallStr(k, (sel(bktHas[b], k) && sel(bktSub[b], k) == 0) == (old(sel(bktHas[b], k)) && old(sel(bktSub[b], k)) == 0)))
+//@ define bucketsKept() = forall(b, forallStr(k, old(sel(bktHas[b], k)) && old(sel(bktSub[b], k)) != 0 ==> sel(bktHas[b], k) && sel(bktSub[b], k) == old(sel(bktSub[b], k))))
 //@ func (*TypedBucket).GetOrCreatePath
 //@   props C04
 //@   nosafety
@@ -74,10 +75,9 @@ package boltz
 //@   ensures[pending-error-or-empty-path-is-the-bucket-itself] bucket.Err != nil || len(path) == 0 ==> result == bucket && dbSame()
 //@   ensures[values-untouched] bktVal == old(bktVal)
 //@   ensures[plain-entries-neither-added-nor-removed] plainSame()
+//@   ensures[existing-nested-buckets-stay] bucketsKept()
 //@   censures[stable-name-of-the-nested-bucket] bucket.Err == nil && result.Err == nil ==> ref(result.Bucket) == pathUnder(bucket.Bucket, arr(path), len(path))
-//@   invariant 1: next != nil && next.ErrorHolderImpl != nil && next.Err == nil && next.Bucket != nil && bktVal == old(bktVal) && plainSame()
-//@ func GetOrCreatePath
-//@   modifies bktHas, bktVal, bktSub
+//@   invariant 1: next != nil && next.ErrorHolderImpl != nil && next.Err == nil && next.Bucket != nil && bktVal == old(bktVal) && plainSame() && bucketsKept()
 //@ func ErrBucket
 //@   props C03
 //@   pure
@@ -222,24 +222,34 @@ package boltz
 //@   invariant 2: (!fix ==> dbSame()) && forallStr(k, has(store.links, k) ==> ciDone[store.links[k]]) && forall(i, 0 <= i && i <= rangeindex ==> ciDone[store.Indexer.constraints[i]])
 
 // ---- the store's own readers are proved read-only (they are what the interface-level contracts above assume) ----
+// entsB(store, tx): the bucket holding a store's entities (0 while it does not exist); a stable name
+//@ spec entsB(store Int, tx Int) Int
 //@ func (Store).GetEntitiesBucket
-//@   modifies *
+//@   pure
 //@   ensures dbSame()
+//@   ensures[the-entities-bucket] (result != nil) == (entsB(self, tx) != 0) && (result != nil ==> ref(result.Bucket) == entsB(self, tx) && result.ErrorHolderImpl != nil && result.Err == nil)
 //@ func (*BaseStore).GetEntitiesBucket
-//@   props C09
+//@   props C09 C15
 //@   nosafety
 //@   modifies *
 //@   ensures[read-only] dbSame()
+//@   ensures[the-entities-bucket] (result != nil) == (sEnts(store, tx) != 0) && (result != nil ==> ref(result.Bucket) == sEnts(store, tx) && result.ErrorHolderImpl != nil && result.Err == nil)
 //@ func (*BaseStore).GetEntityBucket
-//@   props C09
+//@   props C09 C15
 //@   nosafety
 //@   modifies *
 //@   ensures[read-only] dbSame()
+//@   ensures[no-entities-bucket-no-entity] sEnts(store, tx) == 0 ==> result == nil
+//@   ensures[a-root-store's-entity-is-its-bucket] store.parent == nil && sEnts(store, tx) != 0 ==> (result != nil) == sEntHas(store, tx, str(id)) && (result != nil ==> result.Bucket == sel(bktSub[sEnts(store, tx)], str(id)) && result.ErrorHolderImpl != nil && result.Err == nil)
+//@   ensures[child-data-lives-under-the-parent's-entity] store.parent != nil && result != nil ==> sEnts(store, tx) != 0 && sEntHas(store, tx, str(id)) && ref(result.Bucket) == pathUnder(sel(bktSub[sEnts(store, tx)], str(id)), arr(store.entityPath), len(store.entityPath))
+//@   ensures[no-parent-entity-no-child-data] store.parent != nil && sEnts(store, tx) != 0 && !sEntHas(store, tx, str(id)) ==> result == nil
 //@ func (*BaseStore).IsEntityPresent
-//@   props C09
+//@   props C09 C15
 //@   nosafety
 //@   modifies *
 //@   ensures[read-only] dbSame()
+//@   ensures[a-root-store's-entity-is-its-bucket] store.parent == nil ==> result == (sEnts(store, tx) != 0 && sEntHas(store, tx, id))
+//@   ensures[present-in-the-child-store-means-present-in-the-parent] store.parent != nil && result ==> sEnts(store, tx) != 0 && sEntHas(store, tx, id)
 // assumed: positioning a filtered id cursor evaluates the filter, which only reads
 //@ func newFilteredCursor
 //@   modifies *
